@@ -12,6 +12,15 @@ while i < len(args):
     elif args[i] == "--seed": seed = args[i+1]; i += 2
     else: subs.append(args[i]); i += 1
 ids = sorted(d for d in os.listdir(os.path.join(VERIF, "seeded")) if os.path.exists(os.path.join(VERIF, "seeded", d, "patch.diff")) and (not subs or any(s in d for s in subs)))
+# precondition: every check involved HOLDS on the unchanged tree at this seed (otherwise "caught" would mean nothing)
+props = sorted({json.load(open(os.path.join(VERIF, "seeded", d, "meta.json")))["property"] for d in ids})
+def base_ok(prop):
+    r = subprocess.run([os.path.join(VERIF, "check"), prop, tier], capture_output=True, text=True, env=dict(os.environ, VERIF_SEED=seed, VERIF_REPO="/repo", VERIF_NO_EVIDENCE="1"))
+    return prop, r.returncode
+with cf.ThreadPoolExecutor(jobs) as ex:
+    bad = [(p, rc) for p, rc in ex.map(base_ok, props) if rc != 0]
+if bad:
+    print("ABORT: checks not HELD on the unchanged tree:", bad); sys.exit(2)
 def one(sid):
     mp = os.path.join(VERIF, "seeded", sid, "meta.json")
     meta = json.load(open(mp))
